@@ -1220,3 +1220,72 @@ BENIGN = [
     {"name": "loop-var-renamed", "file": MACROS, "old": "{% for spec in network.species %}\n#define IDX_{{ spec.alias }} {{ loop.index0 }}", "new": "{% for sp in network.species %}\n#define IDX_{{ sp.alias }} {{ loop.index0 }}"},
     {"name": "suffix-commuted", "file": SP, "old": '"I" * (self.charge + 1) if self.charge >= 0', "new": '(self.charge + 1) * "I" if self.charge >= 0'},
 ]
+
+# --- spellings accepted since the second hardening wave (each with the defect it must still see) ---------------------------------
+_ALIAS_INLINE = '            basename = self.basename\n            # TODO: The replacement does not guarantee the correctness\n            # e.g. CO could be replaced by Co if Co exists in the known element list\n            replacement = {\n                e.Symbol.upper(): e.Symbol\n                for e in chemistrydata.periodic_table + chemistrydata.isotopes_table\n                if e.Symbol.upper() in self._known_elements\n            }\n            for key, value in replacement.items():\n                basename = basename.replace(key, value)\n            self._alias = "{}{}{}".format(\n                "G" if self.is_surface else "",\n                basename,\n                "I" * (self.charge + 1) if self.charge >= 0 else "M" * abs(self.charge),\n            )\n'
+
+
+def _alias_helper(suffix_neg):
+    return ("    def _default_alias(self):\n        text = self.basename\n        table = {e.Symbol.upper(): e.Symbol for e in chemistrydata.periodic_table + chemistrydata.isotopes_table "
+            "if e.Symbol.upper() in self._known_elements}\n        for upper, symbol in table.items():\n            text = text.replace(upper, symbol)\n"
+            "        q = self.charge\n        tail = \"I\" * (q + 1) if q >= 0 else " + suffix_neg + "\n        return (\"G\" if self.is_surface else \"\") + text + tail\n\n    @alias.setter\n")
+
+
+_SUMMARY_OLD = ("        summary = tomlkit.table()\n        all_elements = [e.name for e in net.elements]\n        all_species = [x.name for x in net.species]\n"
+                "        all_alias = [x.alias for x in net.species]\n")
+_SUMMARY_STORES = ('        summary["num_of_elements"] = len(net.elements)\n        summary["num_of_species"] = len(net.species)\n')
+_SUMMARY_LISTS = ('        summary["list_of_elements"] = all_elements\n        summary["list_of_species"] = all_species\n        summary["list_of_species_alias"] = all_alias\n')
+
+
+def _summary_tables(alias_filter=""):
+    return [
+        {"file": RENDER, "old": "import tomlkit\n", "new": "import itertools\nimport tomlkit\n"},
+        {"file": RENDER, "old": _SUMMARY_OLD, "new": "        summary = tomlkit.table()\n        members = net.species\n        names = {\"list_of_elements\": [e.name for e in net.elements], "
+         "\"list_of_species\": [x.name for x in members], \"list_of_species_alias\": [x.alias for x in members" + alias_filter + "]}\n"
+         "        sizes = {\"num_of_elements\": len(names[\"list_of_elements\"]), \"num_of_species\": len(members)}\n"
+         "        for label, entry in itertools.chain(sizes.items(), names.items()):\n            summary[label] = entry\n"},
+        {"file": RENDER, "old": _SUMMARY_STORES, "new": ""},
+        {"file": RENDER, "old": _SUMMARY_LISTS, "new": ""}]
+
+
+_HASH_OLD = '            hash("Electron")\n            if self.is_electron\n'
+_EQ_GRAIN = ("                or (\n                    self.is_grain\n                    and o.is_grain\n                    and self.grain_group == o.grain_group\n"
+             "                    and self.charge == o.charge\n                )\n")
+
+
+def _eq_helper(with_charge=True):
+    return [{"file": SP, "old": _EQ_GRAIN, "new": "                or self._grain_twin(o)\n"},
+            {"file": SP, "old": "    def __hash__(self) -> int:\n", "new": "    def _grain_twin(self, o):\n        if not (self.is_grain and o.is_grain):\n            return False\n"
+             "        return self.grain_group == o.grain_group" + (" and self.charge == o.charge" if with_charge else "") + "\n\n    def __hash__(self) -> int:\n"}]
+
+
+_SORT_OLD = "        speclist = sorted(speclist, key=lambda x: (len(connection[x]), x))\n\n        return speclist\n"
+MUTANTS += [
+    {"name": "dsu-sort-by-count-only", "file": NETF, "old": _SORT_OLD,
+     "new": "        ranked = sorted(((len(connection[sp]), sp) for sp in speclist), key=lambda t: t[0])\n\n        return [sp for _, sp in ranked]\n", "rules": ["R9"]},
+    {"name": "alias-looping-helper-single-M", "edits": [{"file": SP, "old": _ALIAS_INLINE, "new": "            self._alias = self._default_alias()\n"},
+                                                         {"file": SP, "old": "    @alias.setter\n", "new": _alias_helper('"M"')}], "rules": ["R6"]},
+    {"name": "summary-chained-tables-alias-skips-ice", "edits": _summary_tables(" if not x.is_surface"), "rules": ["R4"]},
+    {"name": "mapped-alias-loop-over-sorted-species", "file": MACROS, "old": "{% for spec in network.species %}\n#define IDX_{{ spec.alias }} {{ loop.index0 }}",
+     "new": '{% for tag in network.species | sort(attribute="name") | map(attribute="alias") %}\n#define IDX_{{ tag }} {{ loop.index - 1 }}', "rules": ["R4"]},
+    {"name": "index-one-based-minus-nothing", "file": PYIDX, "old": "IDX_{{ spec.alias }} = {{ loop.index0 }}", "new": "IDX_{{ spec.alias }} = {{ loop.index - 0 }}", "rules": ["R4"]},
+    {"name": "electron-hash-by-spelling", "file": SP, "old": _HASH_OLD, "new": '            hash(self.name.upper())\n            if self.is_electron\n', "rules": ["R7"]},
+    {"name": "eq-grain-helper-ignores-charge", "edits": _eq_helper(False), "rules": ["R7"]},
+]
+BENIGN += [
+    {"name": "decorate-sort-undecorate", "file": NETF, "old": _SORT_OLD,
+     "new": "        ranked = sorted((len(connection[sp]), sp) for sp in speclist)\n\n        return [sp for _, sp in ranked]\n"},
+    {"name": "decorate-sort-undecorate-by-subscript", "file": NETF, "old": _SORT_OLD,
+     "new": "        ranked = sorted([(len(connection[sp]), sp) for sp in speclist])\n\n        return [pair[-1] for pair in ranked]\n"},
+    {"name": "alias-looping-helper", "edits": [{"file": SP, "old": _ALIAS_INLINE, "new": "            self._alias = self._default_alias()\n"},
+                                                {"file": SP, "old": "    @alias.setter\n", "new": _alias_helper('"M" * abs(q)')}]},
+    {"name": "summary-chained-tables", "edits": _summary_tables()},
+    {"name": "mapped-alias-loop-index-minus-one", "edits": [
+        {"file": MACROS, "old": "{% for spec in network.species %}\n#define IDX_{{ spec.alias }} {{ loop.index0 }}",
+         "new": '{% for tag in network.species | map(attribute="alias") %}\n#define IDX_{{ tag }} {{ loop.index - 1 }}'},
+        {"file": PYCONST, "old": "NSPEC = {{ network.species | length }}", "new": "NSPEC = {{ network.species | count }}"}]},
+    {"name": "electron-hash-key-class-constant", "edits": [
+        {"file": SP, "old": "    _replacement = {}\n", "new": "    _replacement = {}\n    _ELECTRON_KEY = \"Electron\"\n"},
+        {"file": SP, "old": _HASH_OLD, "new": '            hash(self._ELECTRON_KEY)\n            if self.is_electron\n'}]},
+    {"name": "eq-grain-predicate-helper", "edits": _eq_helper(True)},
+]
